@@ -558,6 +558,11 @@ class Namespace(Evaluatable[Options]):
         return item
 
     def __getattr__(self, key: str) -> Evaluatable:
+        if key.startswith("_"):
+            # Private attributes are never members. While an instance is being
+            # unpickled (or copied) its own attributes do not exist yet, and looking
+            # them up as members would recurse through self._members forever.
+            raise AttributeError(key)
         try:
             return self[key]
         except KeyError:
